@@ -274,6 +274,9 @@ def run(ctx):
     d14_declared_alignment_after_head(db, rep)
     __import__("importlib").import_module("rules.c06").accumulator_walks_complete(db, rep, "D15-ACCUMULATOR-WALKS")
     d16_setter_prints_its_field(db, rep)
+    # D17: "works ... under ORC_CODE=backup and without Orc": an integer division in a C template is guarded by a zero test of the
+    # divisor itself, or the backup function dies with SIGFPE where emulation returns the reference constant (shared with C04 D12)
+    __import__("importlib").import_module("rules.c04").div_guarded(db, rep, "D17-DIVISOR-GUARDED")
     # a generated wrapper hands native code an uncleared stack executor: every counter the code reads must have been stored by it (shared with C03 D8)
     import emitstate as _es
     _names = {}
